@@ -1080,6 +1080,38 @@ func (r *runner) starvation() {
 	r.runBatch([]caseT{alone, after})
 }
 
+// implementsLeak: the same root cause reached from GetOrLoadClass — after autoloading a
+// class, LoadClass asks the (Temp)VM for every interface the class implements, and
+// TempVM.GetOrLoadInterface autoloads those through the base. Not in the Lean model
+// (files there declare plain classes); judged by the snapshot oracle only.
+func (r *runner) implementsLeak() {
+	d := r.d
+	hp := filepath.Join(d.root, "cls", "H.php")
+	if !d.written[hp] {
+		os.WriteFile(hp, []byte("<?php\nnamespace N;\nclass H implements B {}\n"), 0o644)
+		d.written[hp] = true
+	}
+	w := newWorld(d, 2)
+	w.exec(op{K: "lar", V: 0, F: 9}) // binds TempVM 0's parser (the file itself is missing)
+	before := w.tables(allPool())
+	res := func() (s string) {
+		defer func() {
+			if r := recover(); r != nil {
+				s = "crash"
+			}
+		}()
+		if _, acl := w.temps[0].GetOrLoadClass(`N\H`); acl != nil {
+			return "err"
+		}
+		return "ok"
+	}()
+	after := w.tables(allPool())
+	r.c.Hit("known:implements:" + res)
+	if !eqTab(before[0], after[0]) {
+		r.c.Violation("leak:GetOrLoadClass:implements", fmt.Sprintf("GetOrLoadClass(N\\H) through TempVM 0 (class H implements B, %s) changed what base resolves: before %s after %s", res, strings.Join(before[0], ","), strings.Join(after[0], ",")), map[string]any{"stream": "implements"})
+	}
+}
+
 func (r *runner) knownStream() {
 	r.knownAsModelled = true
 	for _, wc := range []struct {
@@ -1103,6 +1135,7 @@ func (r *runner) knownStream() {
 	if r.shard == 0 {
 		r.runBatch([]caseT{witnessGoli(), witnessPkg()})
 		r.starvation()
+		r.implementsLeak()
 	}
 	alpha := append(alphabet(4, allPool(), []int{0, 1, 2, 3, 4, 5, 6, 7, 8, 9}, []int{0, 1, 5, 6, 8}), knownAlphabet(4, allPool())...)
 	for i := 0; i < r.c.N(3000, 60000); i++ {
@@ -1327,6 +1360,10 @@ func runShard(c *vh.Ctx, shard, nshards int) {
 		r.knownAsModelled = true
 		if cs.Stream == "starve" {
 			r.starvation()
+			return
+		}
+		if cs.Stream == "implements" {
+			r.implementsLeak()
 			return
 		}
 		r.runBatch([]caseT{cs})
